@@ -20,6 +20,7 @@ def run(rep):
     rep.guard(t6, rep, w)
     rep.guard(t7, rep, w)
     rep.guard(t8, rep, w)
+    rep.guard(t10, rep, w)
     import c03_progress
     rep.guard(c03_progress.t9, rep, w)
 
@@ -607,3 +608,70 @@ def t8(rep, w):
                     'stops inside a token the position equals len and the compiler panics ("index out of bounds") instead of reporting an error', f.loc(t.get('sp')))
     r.note('element-wise reads in the scanner on this tree: %d' % n)
 
+
+
+def t10(rep, w):
+    """a lexical error the scanner has noticed is reported: a scanner function that parks an error message in a local
+    (`error = Some("...")`, to go on scanning up to the end of the literal) hands that message to error_token on every path to a
+    return -- or returns another error token. Until fix ca6eca8 Scanner::string returned the Interpolation token of a part ending
+    in `${` without looking at the parked error, so a bad hex escape in front of an interpolation compiled."""
+    c = w.yarel
+    r = rep.rule('T10', 'a lexical error parked while scanning a literal is reported on every path that returns a token', floor=1)
+    ERR = 'yarel::scanner::Scanner::error_token'
+    w.require_fn(ERR, 'C03')
+    n = 0
+    for f in sorted(c.fns.values(), key=lambda x: x.path):
+        if not f.file.endswith('scanner.rs'):
+            continue
+        # locals of type Option<&str> that receive Some(<string constant>) somewhere
+        parked = {}
+        for bi in f.normal_blocks():
+            for s_ in f.blocks[bi]['s']:
+                d = s_.get('d', {})
+                rr = s_.get('r', {})
+                if d.get('p') or not f.local_name(d['l']):
+                    continue
+                if rr.get('rv') == 'agg' and (rr.get('adt') != 'std::option::Option' or rr.get('v') != 'Some'):
+                    continue      # the initial None
+                if rr.get('rv') not in ('agg', 'use'):
+                    continue
+                ts = c.tstr(f.local_ty(d['l']))
+                if ts.replace(' ', '') in ('std::option::Option<&str>', "std::option::Option<&'staticstr>"):
+                    parked.setdefault(d['l'], []).append(bi)
+        # only message slots: the payload reaches error_token
+        for l, sites in sorted(parked.items()):
+            if not f.local_name(l):
+                continue
+            reads = set()
+            for bi in f.normal_blocks():
+                for s_ in f.blocks[bi]['s']:
+                    rr = s_.get('r', {})
+                    pl = rr.get('p') if rr.get('rv') in ('discr', 'ref') else op_place(rr.get('o', {}) or {})
+                    if pl and pl.get('l') == l and (rr.get('rv') == 'discr' or pl.get('p')):
+                        reads.add(bi)
+            if not reads:
+                continue
+            errs = {bi for bi, t in f.calls() if callee_name(t) == ERR}
+            rets = set(f.return_blocks())
+            succ = f.succs()
+            for site in sites:
+                n += 1
+                seen = set()
+                stack = list(succ[site])
+                leak = None
+                while stack:
+                    b = stack.pop()
+                    if b in seen:
+                        continue
+                    seen.add(b)
+                    if b in reads or b in errs:
+                        continue
+                    if b in rets:
+                        leak = b
+                        break
+                    stack.extend(x for x in succ[b] if x in f.normal_blocks())
+                r.check(leak is None, '%s / parked error `%s` is examined before every return' % (f.path, f.local_name(l)),
+                        '%s notes a lexical error in `%s` and can then return a token without looking at it: the malformed literal is accepted and compiled' % (f.path, f.local_name(l)),
+                        f.loc())
+    if n == 0:
+        raise Broken('C03', 'floor', 'no parked scanner error found (Scanner::string keeps `error`)')
